@@ -1,7 +1,7 @@
 (* PropC11.v — property theorems for C11 (sync-state index integrity) about StateModel.v.
    Only statements closed by [exact], each followed by Print Assumptions. *)
 From Coq Require Import NArith List Bool.
-From CS Require Import Sx Str PathModel StateModel StateProofs.
+From CS Require Import Sx Str PathModel StateModel StateProofs StatePathProofs.
 Import ListNotations.
 
 (* the empty state satisfies all four clauses *)
@@ -65,6 +65,14 @@ Theorem C11_set_oid_preserves : forall E s e sd v s', IdxJ s -> set_oid E s e sd
 Proof. exact set_oid_pres. Qed.
 Print Assumptions C11_set_oid_preserves.
 
+(* ent[side].path = v  (SideState.__setattr__ -> SyncState._change_path) for an entry that is not a
+   folder: re-filing under the new path, removal for None / '', the "ousted entry" branch (impossible
+   under the invariant), priority reset.  The folder case (_update_kids recursion) is NOT covered. *)
+Theorem C11_set_path_nonfolder_preserves : forall E s e sd v s' en,
+  IdxJ s -> get_ent s e = Ok en -> s_otype (gs en sd) <> Dir -> set_path E s e sd v = Ok s' -> IdxJ s'.
+Proof. exact set_path_file_pres. Qed.
+Print Assumptions C11_set_path_nonfolder_preserves.
+
 Theorem C11_set_changed_preserves : forall E s e sd v s', IdxJ s -> set_changed E s e sd v = Ok s' -> IdxJ s'.
 Proof. exact set_changed_pres. Qed.
 Print Assumptions C11_set_changed_preserves.
@@ -88,8 +96,8 @@ Print Assumptions C11_finished_preserves.
 
 (* any sequence of covered operations (assignments of oid / changed / hash / sync_hash / sync_path /
    exists / otype / force_sync / ignored / priority, mark_changed, finished, discard), from any
-   state satisfying the invariant.  NOT covered by this proof: path assignment (_change_path /
-   _update_kids), update_entry, update, split, move-a-side, forget_oid. *)
+   state satisfying the invariant.  NOT covered by this proof: path assignment of folders (_update_kids;
+   non-folder path assignment is C11_set_path_nonfolder_preserves), update_entry, update, split, move-a-side, forget_oid. *)
 Theorem C11_idx_partial : forall E ops s s',
   forallb (fun ot => op_covered (fst ot)) ops = true -> IdxJ s -> run_ops E s ops = Ok s' ->
   idx_found s' /\ idx_slots s' /\ idx_unique s'.
